@@ -291,7 +291,8 @@ func (d *driver) miscFr(e ev, c *miscCase, rnd *prg) {
 			e["reg"] = limbsOfBig(&reg)
 			e["words"] = frRaw(&x)
 			// SetBigInt of the unreduced value, of its negative, and of a value beyond 2^256
-			var s1, s2, s3 fr.Element
+			// receivers that already hold a value
+			s1, s2, s3 := frFromBig(big.NewInt(-7)), frFromBig(big.NewInt(-8)), frFromBig(big.NewInt(-9))
 			s1.SetBigInt(v)
 			s2.SetBigInt(new(big.Int).Neg(v))
 			big3 := new(big.Int).Add(new(big.Int).Lsh(v, 70), v)
@@ -303,7 +304,7 @@ func (d *driver) miscFr(e ev, c *miscCase, rnd *prg) {
 		case "string":
 			str := x.String()
 			e["str"] = str
-			var back, neg fr.Element
+			back, neg := frFromBig(big.NewInt(-7)), frFromBig(big.NewInt(-8))
 			back.SetString(v.String())
 			neg.SetString("-" + v.String())
 			e["dec"] = v.String()
@@ -313,7 +314,7 @@ func (d *driver) miscFr(e ev, c *miscCase, rnd *prg) {
 			outs := map[string][]int{}
 			errs := map[string]bool{}
 			try := func(name string, arg interface{}) {
-				var z fr.Element
+				z := frFromBig(big.NewInt(-11))
 				_, err := z.SetInterface(arg)
 				errs[name] = err != nil
 				if err == nil {
